@@ -103,7 +103,7 @@ def btcdeb_cmd(draw):
         rnd = draw(st.randoms(use_true_random=False))
         if kind == 'spend-shapes':
             c = S.build(rnd, draw(st.sampled_from(S.TYPES)), ninputs=draw(st.sampled_from([None, 1])))
-            S.corrupt(c, draw(st.sampled_from(['tiny_scriptsig', 'spk_shape', 'spk_shape'])), rnd)
+            S.corrupt(c, draw(st.sampled_from(['tiny_scriptsig', 'spk_shape', 'spk_shape', 'scriptsig_ops', 'scriptsig_ops'])), rnd)
         elif kind == 'spend-witshape':
             # unusual witness stack shapes on witness-program outputs (lone annex-tagged item, only empty items, ...)
             c = S.build(rnd, draw(st.sampled_from(['p2tr-key', 'p2tr-key', 'p2tr-script', 'p2wpkh', 'p2wsh', 'p2sh-p2wsh', 'p2sh-p2wpkh'])), ninputs=draw(st.sampled_from([None, 1])))
@@ -318,6 +318,22 @@ def check_cmd(c, ctx, variant='asan'):
             return
         raise Violation(c, '%s terminated abnormally (%s) [component %s]: %s' % (c['tool'], ab, c['component'], (r.err.decode(errors='replace')[-400:]).replace('\n', ' | ')), observed=repr(r)[-600:])
     ctx.count('exit:%s:%s' % (c['tool'], r.rc))
+    # what btcdeb lists for a spend is derived from the scripts of the two transactions: more output lines than those scripts have bytes means it is
+    # listing memory that is not its input (a script listing walking past the end of a script) - invisible to the sanitizers when the bytes
+    # happen to lie in owned memory
+    if c['tool'] == 'btcdeb' and c['component'].startswith('spend'):
+        nbytes = 0
+        try:
+            for a_ in c['argv']:
+                if a_.startswith('--tx=') or a_.startswith('--txin='):
+                    t_ = T.Tx.parse(bytes.fromhex(a_.split('=', 1)[1].split(':')[-1]))
+                    nbytes += sum(len(v['script']) + sum(len(w) + 1 for w in v['wit']) for v in t_.vin) + sum(len(o['spk']) for o in t_.vout)
+        except Exception:
+            nbytes = None
+        nlines = r.out.count(b'\n')
+        if nbytes is not None and nlines > nbytes + 60:
+            raise Violation(c, 'btcdeb prints %d lines for a spend whose scripts and witness items have %d bytes in all [component %s]: it lists memory that is not part of its input' % (
+                nlines, nbytes, c['component']), observed=[nlines, r.out[:300].decode(errors='replace')])
 
 
 def root_cause(c, r):
